@@ -86,6 +86,12 @@ def execute(case):
         expc = (c[0] / 255, c[1] / 255, c[2] / 255, c[3])
         if max(abs(x - y) for x, y in zip(got, expc)) > 1.5 / 255:
             out.append(bad("C15.resolves", f"layer {i}: paint resolves to {tuple(round(v, 3) for v in got)}, source colour {tuple(round(v, 3) for v in expc)}"))
+    # a layer whose colour was declared var(--colorN, c) must *use* entry N (that is what overriding a palette entry relies on),
+    # also when the same colour sits in a lower slot as well
+    used_idx = _layer_palette_indices(font, cmap[0xE000])
+    for i, c in enumerate(cols):
+        if c[4] is not None and i < len(used_idx) and used_idx[i] is not None and used_idx[i] != c[4]:
+            out.append(bad("C15.paint-uses-declared-index", f"layer {i} declared var(--color{c[4]}, {c[:4]}) paints with palette entry {used_idx[i]} (palette {pal})"))
     if v1 and len(cols) >= 2:
         g = la[len(cols)]
         pts = g.interior(12)
@@ -112,6 +118,40 @@ def execute(case):
         out.append(bad("C15.current-color", f"currentColor compiled to palette index {first}"))
     if not out:
         out.append(ok("C15.font", f"{case['fmt']}:n{n}:idx{len(byidx)}"))
+    return out
+
+
+def _layer_palette_indices(font, name):
+    """palette index of the solid paint of each layer of the glyph, bottom-up (None for a gradient layer)"""
+    from fontTools.ttLib.tables.otTables import PaintFormat as PF
+
+    colr = font["COLR"]
+    if colr.version == 0:
+        return [l.colorID for l in colr.ColorLayers.get(name, [])]
+    table = colr.table
+    recs = [r for r in table.BaseGlyphList.BaseGlyphPaintRecord if r.BaseGlyph == name]
+    if not recs:
+        return []
+    rec = recs[0]
+    out = []
+
+    def solid_of(p):
+        while True:
+            if p.Format == PF.PaintSolid:
+                return p.PaletteIndex
+            ch = p.getChildren(table)
+            if len(ch) != 1:
+                return None
+            p = ch[0]
+
+    def walk(p):
+        if p.Format == PF.PaintColrLayers:
+            for ch in p.getChildren(table):
+                walk(ch)
+        else:
+            out.append(solid_of(p))
+
+    walk(rec.Paint)
     return out
 
 
